@@ -138,6 +138,25 @@ func caseRepoHistory(r *rng.R, n int) string {
 		drivers = []string{"shared.a", "shared.a", "a.a", "lib.a"}
 		count("caserepo.symlink")
 	}
+	if len(ops) == 0 && !viaCmd && r.Chance(6) {
+		// a case that shares its DRIVER with one case and its SCRIPT with another: deleting it may remove neither
+		step := func(op string, err error) {
+			res := "ok"
+			if err != nil {
+				res = "err"
+			}
+			ops = append(ops, op)
+			outs = append(outs, res+"|"+dirListing(dir))
+		}
+		step("add:a", repo.Add("a", verifier.NewTestCase("d", "a"), true))
+		step("addt:b:a.a", repo.Add("b", verifier.NewTestCaseWithDriver("d", "b", "a.a"), false))
+		os.WriteFile(filepath.Join(dir, "q.json"), []byte(`{"Name":"d","TestDriverSource":"q.a","TestScript":"a.lua"}`), 0600)
+		os.WriteFile(filepath.Join(dir, "q.a"), []byte("text"), 0600)
+		step("plantcase:q.json:q.a:a.lua", nil)
+		step("del:a", repo.Del("a"))
+		names = append(names, "q")
+		count("caserepo.sharedboth")
+	}
 	for i := 0; i < n; i++ {
 		res := "ok"
 		switch k := r.Intn(10); {
